@@ -90,7 +90,7 @@ func checkAckedPresentSkip(cr *crashRun, k int, d *wl.Dump, skip map[string]bool
 			}
 			if !allowed[g] {
 				return fmt.Errorf("bucket %s: slot %d holds tag %d (op %d) after restart; last acknowledged write was op %d (tag %d)",
-					key, slot, g, g>>20, ws[last].op, ws[last].tag)
+					key, slot, g, g>>20-1, ws[last].op, ws[last].tag)
 			}
 		}
 	}
